@@ -481,3 +481,14 @@ func (i *dmIter) Seek(key []byte) bool {
 }
 func (i *dmIter) Release()                      {}
 func (i *dmIter) SetReleaser(r util.Releaser) {}
+
+// Children lists the existing direct children of base.
+func Children(base string) []string {
+	var out []string
+	for p, d := range Disk {
+		if d.Exists && strings.HasPrefix(p, base+"/") && !strings.Contains(p[len(base)+1:], "/") {
+			out = append(out, p)
+		}
+	}
+	return out
+}
